@@ -5,24 +5,28 @@ import XsdataModel.Proofs.CtxConc
 namespace Props.C19
 open Py Xs.Ctx
 
-/-! Interleaved semantics (`Ctx/Conc.lean`): any number of threads, each either
-inside `XmlContext.build(c, parent_ns)` or inside `find_types(q)` (with the lazy
-`build_xsi_cache`), share one context; a schedule is a list of thread numbers,
-each entry lets that thread perform one dict/list/slot operation. -/
+/-! Interleaved semantics (`Ctx/Conc.lean`): any number of threads, each inside
+`XmlContext.build(c, parent_ns)`, inside `find_types(q)` (with the lazy
+`build_xsi_cache` as repaired in 556b985: read `len(sys.modules)`, build the
+index in a local dict, publish it with one assignment, write `sys_modules`) or
+inside `reset()`, share one context; a schedule is a list of thread numbers,
+each entry lets that thread perform one step.  `xsi_cache` is a reference into
+a heap of dict objects. -/
 
-/-- **build_race_benign**: for every set of threads and *every* schedule, a
-thread that has finished `build(c, p)` got exactly the metadata it gets when
-run alone on a fresh context — provided no namespace-less class is requested
-under two parent namespaces (the sequential defect C14-F1).  The
-check-then-insert race on `cache` can build a class twice but never publishes
-different or partial metadata, and `cache[clazz]` never raises `KeyError`. -/
+/-- **build_race_benign**: for every set of threads (none of which calls
+`reset()`) and *every* schedule, a thread that has finished `build(c, p)` got
+exactly the metadata it gets when run alone on a fresh context — provided no
+namespace-less class is requested under two parent namespaces (the sequential
+defect C14-F1).  The check-then-insert race on `cache` can build a class twice
+but never publishes different or partial metadata, and `cache[clazz]` never
+raises `KeyError`. -/
 theorem build_race_benign (U : Universe) (w : World) (progs : List Prog) (schedule : List Nat)
-    (hc : consistent U (progUses progs)) :
+    (hnr : noReset progs) (hc : consistent U (progUses progs)) :
     ∀ th ∈ (runSched U w (Sys.start State.init progs) schedule).threads,
       ∀ c p o, th.prog = .build c p → th.st = .done o → o = Prog.alone U w (.build c p) := by
   intro th hth c p o hp hs
   have hI := runSched_inv hc w schedule _
-    (SysInv.start U progs State.init (by intro c m h; simp [State.init] at h))
+    (SysInv.start U progs hnr State.init (by intro c m h; simp [State.init] at h))
   have := hI.threads th hth
   unfold ThreadOK at this
   rw [hp] at this
@@ -33,12 +37,12 @@ theorem build_race_benign (U : Universe) (w : World) (progs : List Prog) (schedu
 /-- the same on a context that already holds metadata, e.g. one that served
 earlier (admissible) calls: only the cache invariant is needed -/
 theorem build_race_benign_warm_cache (U : Universe) (w : World) (progs : List Prog)
-    (schedule : List Nat) (s0 : State) (hc : consistent U (progUses progs))
+    (schedule : List Nat) (s0 : State) (hnr : noReset progs) (hc : consistent U (progUses progs))
     (h0 : ∀ c m, s0.cache.lookup c = some m → ∃ p, (c, p) ∈ progUses progs ∧ pureBuild U c p = .ok m) :
     ∀ th ∈ (runSched U w (Sys.start s0 progs) schedule).threads,
       ∀ c p o, th.prog = .build c p → th.st = .done o → o = Prog.alone U w (.build c p) := by
   intro th hth c p o hp hs
-  have hI := runSched_inv hc w schedule _ (SysInv.start U progs s0 h0)
+  have hI := runSched_inv hc w schedule _ (SysInv.start U progs hnr s0 h0)
   have := hI.threads th hth
   unfold ThreadOK at this
   rw [hp] at this
@@ -55,73 +59,110 @@ def oneU : Universe :=
 def w1 : World := ⟨1, 0⟩
 def qPA : Str := "{urn:a}PA".toList
 
-/-- the hypothesis of `build_race_benign` is satisfiable with racing threads -/
-example : consistent oneU (progUses [.build 0 none, .build 0 none, .findTypes qPA, .build 0 (some "urn:p".toList)]) := by
+/-- the hypotheses of `build_race_benign` are satisfiable with racing threads -/
+example : noReset [.build 0 none, .build 0 none, .findTypes qPA, .build 0 (some "urn:p".toList)] ∧
+    consistent oneU (progUses [.build 0 none, .build 0 none, .findTypes qPA, .build 0 (some "urn:p".toList)]) := by
   decide
 
-/-- **Full-strength statement for the type index**: every `find_types(q)` that
-finishes, under any schedule on a cold context, returns what it returns alone. -/
-def XsiLinearizable (U : Universe) (w : World) : Prop :=
-  ∀ (progs : List Prog) (schedule : List Nat),
-    ∀ th ∈ (runSched U w (Sys.start State.init progs) schedule).threads,
-      ∀ q o, th.prog = .findTypes q → th.st = .done o → o = Prog.alone U w (.findTypes q)
-
-/-- the 2-thread schedule: thread 1 passes the staleness check; thread 0 checks,
-clears, refills, stamps; thread 1 clears; thread 0 looks up an empty index. -/
-def raceSchedule : List Nat := [1, 0, 0, 0, 0, 1, 0]
-
-/-- **The full statement is false of the code as it stands** (finding C19-F1):
-thread 0 finds no class for `{urn:a}PA` although run alone it finds `PA`
-(the parser then raises "No class found matching root"). -/
-theorem xsi_race_counterexample : ¬ XsiLinearizable oneU w1 := by
-  intro h
-  have := h [.findTypes qPA, .findTypes qPA] raceSchedule
-    ⟨.findTypes qPA, .done (.gotTypes [])⟩ (by decide) qPA (.gotTypes []) rfl rfl
-  revert this
-  decide
-
-/-- a second symptom of the same race: both threads refill and the class is
-indexed twice (`find_types` returns `[PA, PA]`) -/
-theorem xsi_duplicate_witness :
-    (runSched oneU w1 (Sys.start State.init [.findTypes qPA, .findTypes qPA])
-      [1, 0, 0, 1, 1, 0, 0, 0, 1, 1, 0, 1]).results
-      = [some (.gotTypes [0, 0]), some (.gotTypes [0, 0])] := by
-  decide
-
-/-- **xsi_lookup_warm** (the partial statement): on a context whose index is
-current (`build_xsi_cache()` / any lookup has run since the last import), every
-lookup by any number of threads under every schedule returns the cache-free
-answer — nobody clears, nobody refills. -/
-theorem xsi_lookup_warm (U : Universe) (w : World) (progs : List Prog) (schedule : List Nat)
-    (s0 : State) (h1 : s0.sysModules = w.mods + 1) (h2 : s0.xsi = pureIndex U w.loaded) :
+/-- **xsi_lookup_linearizable** — the full-strength statement for the type
+index, false before 556b985, now proved: for every number of threads (builds
+and lookups), **every schedule** and every start state whose stamp is not lying
+(cold, stale after an import, or current), every `find_types(q)` that finishes
+returns exactly what it returns alone: `pureTypes U w q`.  Every dict object
+that is ever published is complete, so no lookup observes a half-built index,
+a wiped index or a doubled entry. -/
+theorem xsi_lookup_linearizable (U : Universe) (w : World) (progs : List Prog) (schedule : List Nat)
+    (s0 : State) (hnr : noReset progs)
+    (h0 : s0.sysModules = w.mods + 1 → s0.xsi = pureIndex U w.loaded) :
     ∀ th ∈ (runSched U w (Sys.start s0 progs) schedule).threads,
       ∀ q o, th.prog = .findTypes q → th.st = .done o → o = Prog.alone U w (.findTypes q) := by
   intro th hth q o hp hs
-  have hI := runSched_warm w schedule _ (WarmInv.start U w progs s0 h1 h2)
+  have hI := runSched_lin w schedule _ (LinInv.start U w progs hnr s0 h0)
   have := hI.threads th hth
-  unfold ThreadWarm at this
+  unfold ThreadLin at this
   rw [hp] at this
   rw [hs] at this
   exact this
 
-/-- warming is what one sequential `build_xsi_cache()` does -/
-example : (doBuildXsi oneU w1 State.init).sysModules = w1.mods + 1 ∧
-    (doBuildXsi oneU w1 State.init).xsi = pureIndex oneU w1.loaded := by
+/-- on a cold context (the case that used to fail) -/
+theorem xsi_lookup_linearizable_cold (U : Universe) (w : World) (progs : List Prog)
+    (schedule : List Nat) (hnr : noReset progs) :
+    ∀ th ∈ (runSched U w (Sys.start State.init progs) schedule).threads,
+      ∀ q o, th.prog = .findTypes q → th.st = .done o → o = Prog.alone U w (.findTypes q) :=
+  xsi_lookup_linearizable U w progs schedule State.init hnr (by intro h; simp [State.init] at h)
+
+/-- a stale start state (index of an older world, stamp of an older module count) is admissible -/
+example : (doBuildXsi oneU ⟨0, 0⟩ State.init).sysModules = (⟨1, 1⟩ : World).mods + 1 →
+    (doBuildXsi oneU ⟨0, 0⟩ State.init).xsi = pureIndex oneU 1 := by
   decide
 
-/-- and on the warm context the race schedule is harmless -/
-example : (runSched oneU w1 (Sys.start (doBuildXsi oneU w1 State.init) [.findTypes qPA, .findTypes qPA])
-    (raceSchedule ++ [1])).results = [some (.gotTypes [0]), some (.gotTypes [0])] := by
+/-- the schedule that broke the old code (thread 1 passes the staleness check,
+thread 0 rebuilds and stamps, thread 1 goes on to publish, thread 0 looks up) -/
+def raceSchedule : List Nat := [1, 0, 0, 0, 0, 1, 1, 0, 0]
+
+/-- … is harmless now: both threads find `PA`, once, and the published index is
+the specification (instance of `xsi_lookup_linearizable`, evaluated). -/
+theorem race_schedule_harmless :
+    (drain oneU w1 (runSched oneU w1 (Sys.start State.init [.findTypes qPA, .findTypes qPA]) raceSchedule)).results
+      = [some (.gotTypes [0]), some (.gotTypes [0])] ∧
+    (drain oneU w1 (runSched oneU w1 (Sys.start State.init [.findTypes qPA, .findTypes qPA])
+      raceSchedule)).shared.toState.xsi = pureIndex oneU 1 := by
   decide
 
+/-! ### what remains excluded: `reset()` racing with other calls -/
+
+/-- every thread's result equals its result when run alone -/
+def ConcurrentSafe (U : Universe) (w : World) (s0 : State) : Prop :=
+  ∀ (progs : List Prog) (schedule : List Nat),
+    ∀ th ∈ (runSched U w (Sys.start s0 progs) schedule).threads,
+      ∀ o, th.st = .done o → o = Prog.alone U w th.prog
+
+/-- **still false with `reset()` among the threads** (finding C19-F2): on a warm
+context a lookup passes the staleness check, `reset()` clears the published dict
+in place and zeroes the stamp, the lookup reads the emptied dict and finds no
+class, although before and after the reset it would find `PA`. -/
+theorem reset_lookup_counterexample : ¬ ConcurrentSafe oneU w1 (doBuildXsi oneU w1 State.init) := by
+  intro h
+  have := h [.findTypes qPA, .reset] [0, 1, 1, 1, 0]
+    ⟨.findTypes qPA, .done (.gotTypes [])⟩ (by decide) (.gotTypes []) rfl
+  revert this
+  decide
+
+/-- `reset()` racing with `build`: the class is found in the cache, `reset()`
+clears the cache, `self.cache[clazz]` raises `KeyError`. -/
+theorem reset_build_counterexample : ¬ ConcurrentSafe oneU w1 State.init := by
+  intro h
+  have := h [.build 0 none, .reset, .build 0 none] [0, 0, 0, 2, 1, 2]
+    ⟨.build 0 none, .done (.raised .index)⟩ (by decide) (.raised .index) rfl
+  revert this
+  decide
+
+/-- without `reset()` both positive theorems apply at once: the two hypotheses
+are the only exclusions -/
+theorem concurrent_safe_partial (U : Universe) (w : World) (progs : List Prog) (schedule : List Nat)
+    (hnr : noReset progs) (hc : consistent U (progUses progs)) :
+    ∀ th ∈ (runSched U w (Sys.start State.init progs) schedule).threads,
+      ∀ o, th.st = .done o → o = Prog.alone U w th.prog := by
+  intro th hth o hs
+  cases hp : th.prog with
+  | build c p => exact build_race_benign U w progs schedule hnr hc th hth c p o hp hs
+  | findTypes q => exact xsi_lookup_linearizable_cold U w progs schedule hnr th hth q o hp hs
+  | reset =>
+    -- no thread of the run has program `reset`
+    have hI := runSched_lin w schedule _
+      (LinInv.start U w progs hnr State.init (by intro h; simp [State.init] at h))
+    have := hI.threads th hth
+    unfold ThreadLin at this
+    rw [hp] at this
+    exact this.elim
 
 /-- **no thread ever blocks or loops**: whatever the shared state looks like
 (i.e. whatever the other threads did), each step of an unfinished thread strictly
-decreases the number of shared operations it still has to perform; so under any
-fair schedule every call returns. -/
-theorem thread_progress (U : Universe) (w : World) (s : State) (st : TState) (h : st.isDone = false) :
-    ((stepT U w s st).2).remaining (indexEntries U w.loaded).length
-      < st.remaining (indexEntries U w.loaded).length := by
+decreases the number of steps it still has to perform; so under any fair
+schedule every call returns. -/
+theorem thread_progress (U : Universe) (w : World) (s : CState) (st : TState) (h : st.isDone = false) :
+    ((stepT U w s st).2).remaining (bindingClasses U w.loaded).length
+      < st.remaining (bindingClasses U w.loaded).length := by
   cases st with
   | bCheck c p =>
     simp only [stepT]
@@ -130,24 +171,28 @@ theorem thread_progress (U : Universe) (w : World) (s : State) (st : TState) (h 
     · split <;> simp [TState.remaining]
   | bWrite c m => simp [stepT, TState.remaining]
   | bRead c => simp only [stepT]; split <;> simp [TState.remaining]
-  | xCheck q => simp only [stepT]; split <;> simp [TState.remaining]
-  | xClear q =>
-    simp only [stepT, afterFill]
+  | xCheck q =>
+    simp only [stepT, afterLocal]
     split
     · simp [TState.remaining]
-    · simp [TState.remaining]
-  | xFill q todo =>
+    · split
+      · simp [TState.remaining]
+      · simp [TState.remaining]
+  | xLocal q todo acc =>
     cases todo with
     | nil => simp [stepT, TState.remaining]
-    | cons e rest =>
-      obtain ⟨k, c0⟩ := e
-      simp only [stepT, afterFill]
+    | cons c rest =>
+      simp only [stepT, afterLocal]
       split
       · simp [TState.remaining]
       · simp [TState.remaining]
+  | xPublish q acc => simp [stepT, TState.remaining]
   | xStamp q => simp [stepT, TState.remaining]
-  | xContains q => simp only [stepT]; split <;> simp [TState.remaining]
-  | xGet q => simp only [stepT]; split <;> simp [TState.remaining]
+  | xContains q d => simp only [stepT]; split <;> simp [TState.remaining]
+  | xGet q d => simp only [stepT]; split <;> simp [TState.remaining]
+  | rCache => simp [stepT, TState.remaining]
+  | rXsi d => simp [stepT, TState.remaining]
+  | rStamp => simp [stepT, TState.remaining]
   | done o => simp [TState.isDone] at h
 
 end Props.C19
